@@ -124,6 +124,30 @@ fn main() {
             if stack.last() == Some(&usize::MAX) { break; }
         }
     }
+    // long inputs: n distinct values in descending order, every p of a quarter-step grid; the rank is computed
+    // in integer arithmetic (n * 4p / 400), which is what the real-number definition floor(n * p / 100) gives
+    let long_max: usize = if thorough { 400 } else { 128 };
+    for n in (max_len + 1)..=long_max {
+        let seq: Vec<i32> = (0..n as i32).rev().collect();
+        if only_seq.as_ref().map_or(false, |o| *o != seq) { continue; }
+        sequences += 1;
+        nontrivial += 1;
+        for q in 0..=400usize {
+            let p = q as f64 / 4.0;
+            calls += 1;
+            let want = vec![((n * q) / 400).min(n - 1) as i32];
+            let pclass = if q == 400 { "p=100" } else if q == 0 { "p=0" } else { "0<p<100" };
+            match catch(|| percentile(p)(hinted(&seq, Hint::Exact)).collect::<Vec<i32>>()) {
+                Err(msg) => rep.violate(format!("C17|percentile({})|panic", pclass), format!("percentile({}) panicked on the {} values {}..=0: {}", p, n, n - 1, msg),
+                    json!({"aggregator": "percentile", "p": p, "input": seq, "panic": msg})),
+                Ok(g) => if g != want {
+                    rep.violate(format!("C17|percentile({})|wrong-result", pclass), format!("percentile({}) on the {} values {}..=0 yielded {:?}, rank definition says {:?}", p, n, n - 1, g, want),
+                        json!({"aggregator": "percentile", "p": p, "input": seq, "got": g, "want": want}))
+                },
+            }
+        }
+    }
+    rep.extra("long_inputs_up_to", long_max as u64);
     rep.states = sequences;
     rep.transitions = calls;
     rep.executions = calls;
@@ -132,7 +156,7 @@ fn main() {
     rep.extra("max_len", max_len as u64);
     rep.extra("alphabet", json!(alphabet));
     rep.extra("size_hint_shapes", json!(["Exact", "LowerOnly", "Absent", "Loose"]));
-    rep.rule = "every sequence over {-1,0,1,2} up to max_len (every multiset in every order) is one case, fed through four size_hint shapes; percentile over a 0.5-step grid of p plus every rank boundary +-1e-6; non-trivial = at least two distinct values".into();
+    rep.rule = "every sequence over {-1,0,1,2} up to max_len (every multiset in every order) is one case, fed through four size_hint shapes; percentile over a 0.5-step grid of p plus every rank boundary +-1e-6; plus, for percentile, n distinct values for every n up to long_inputs_up_to and every p of a 0.25-step grid with the rank computed in integer arithmetic; non-trivial = at least two distinct values".into();
     let code = rep.finish(start);
     std::process::exit(code);
 }
